@@ -19,6 +19,17 @@ pub enum GLit {
   Float(f64),
   Text(String),
   Bytes(BK, Vec<u8>),
+  /// a literal with a fixed spelling (C07): printed as `.0`, denotes `.1`
+  Raw(String, Box<GLit>),
+}
+
+impl GLit {
+  pub fn value(&self) -> &GLit {
+    match self {
+      GLit::Raw(_, v) => v.value(),
+      x => x,
+    }
+  }
 }
 
 impl PartialEq for GLit {
@@ -29,6 +40,7 @@ impl PartialEq for GLit {
       (GLit::Float(a), GLit::Float(b)) => a.to_bits() == b.to_bits(),
       (GLit::Text(a), GLit::Text(b)) => a == b,
       (GLit::Bytes(k, a), GLit::Bytes(l, b)) => k == l && a == b,
+      (GLit::Raw(s, a), GLit::Raw(t, b)) => s == t && a == b,
       _ => false,
     }
   }
@@ -783,6 +795,7 @@ pub fn hexfloat(f: f64) -> Option<String> {
 
 pub fn spell_lit(l: &GLit, vary: bool, rng: &mut Rng) -> String {
   match l {
+    GLit::Raw(s, _) => s.clone(),
     GLit::Uint(n) => {
       if vary {
         spell_uint(*n, rng)
@@ -1297,6 +1310,7 @@ fn int2() -> GType2 {
 fn sh_lit(l: &GLit) -> Vec<GLit> {
   let mut v = vec![];
   match l {
+    GLit::Raw(_, x) => v.push((**x).clone()),
     GLit::Uint(n) => {
       if *n > 1 {
         v.push(GLit::Uint(1));
@@ -1622,6 +1636,7 @@ impl Tags {
   }
   fn lit(&mut self, l: &GLit, pos: &str) {
     match l {
+      GLit::Raw(_, v) => self.lit(v, pos),
       GLit::Uint(_) => self.add(&format!("lit.uint{}", pos)),
       GLit::Nint(_) => self.add(&format!("lit.nint{}", pos)),
       GLit::Float(f) => {
